@@ -362,13 +362,16 @@ def run_case(case):
         else:
             count("emitted:accepted")
     sig_counts = {}
+    sig_example = {}
     for vio in viol:
         sig_counts[vio["sig"]] = sig_counts.get(vio["sig"], 0) + 1
+        sig_example.setdefault(vio["sig"], vio["key"].split("#")[0])
     out = {"evals": len(case["states"]), "nontrivial": nontrivial,
            "states": len(case["states"]), "transitions": transitions,
            "validated": len(case["states"]), "classes": classes, "viol": viol,
            "extra": {"gfortran_runs": runs,
-                     "violation_signatures": sig_counts}}
+                     "violation_signatures": sig_counts,
+                     "violation_examples": sig_example}}
     if sample:
         out["sample"] = sample
     return out
